@@ -436,7 +436,76 @@ theorem success_hs_zero (e : LoopEnd) (hwf : WF e.tok) (hinv : HsInv e.tok)
     · simp [hc, h1, h3] at h
     · have hnn : e.stop ≠ .nul := fun hh => hc (hnul hh)
       have hnd : e.stop ≠ .done := fun hh => hz (hdone hh)
-      trace_state
-      sorry
+      split at h
+      · cases h
+      split at h
+      · cases h
+      split at h
+      · cases h
+      unfold loopErr at h
+      cases hstop : e.stop with
+      | endOfChunk => simp [hstop, topState, hs, h2] at h
+      | err x => rw [hstop] at h; simp only at h; cases x <;> cases h
+      | done => exact hnd hstop
+      | nul => exact hnn hstop
+      | stuck => exact hns hstop
+      | fault w => exact hnf w hstop
+
+/-- **C03, stream clause: after a success the parser is as good as new for the next document**: the
+tokener a successful call leaves behind equals a new one (same depth and flags) up to dead scratch fields -/
+theorem success_like_new (lc : Libc) (t : Tok) (A : Bytes) (hwf : WF t) (hhs : HsInv t)
+    (h : (parseEx lc t A).err = .success) :
+    Eqv (parseEx lc t A).tok (freshTok t.maxDepth t.flags) := by
+  have r := run_hs lc A t {} 1 0 hwf hhs
+  unfold parseEx epilogue at h ⊢
+  generalize run lc t {} 1 0 A = e at *
+  simp only at h ⊢
+  split at h
+  · rename_i hfe
+    rw [if_pos hfe]
+    have hfe' : finalErr e = .success := by simpa using hfe
+    exact eqv_of_fresh rfl rfl r.maxDepth r.flags
+      (success_hs_zero e r.wf r.inv r.nul r.done r.notFault r.notStuck hfe')
+  · rename_i hfe
+    simp only at h
+    exact absurd (by simpa using h) hfe
+
+/-- `HsInv` (and well-formedness) survive a call, so the stream clause applies call after call -/
+theorem parseEx_hsInv (lc : Libc) (t : Tok) (A : Bytes) (hwf : WF t) (hhs : HsInv t) :
+    HsInv (parseEx lc t A).tok := by
+  have r := run_hs lc A t {} 1 0 hwf hhs
+  unfold parseEx epilogue
+  generalize run lc t {} 1 0 A = e at *
+  simp only
+  split
+  · rename_i hfe
+    have hfe' : finalErr e = .success := by simpa using hfe
+    exact hsInv_of_zero (success_hs_zero e r.wf r.inv r.nul r.done r.notFault r.notStuck hfe')
+  · exact r.inv
+
+/-- the next document: parsing `B` with the tokener a successful call left behind gives exactly what a
+new tokener of the same depth and flags gives -/
+theorem next_doc_like_new (lc : Libc) (t : Tok) (A B : Bytes) (hwf : WF t) (hhs : HsInv t)
+    (h : (parseEx lc t A).err = .success) :
+    let f := parseEx lc (parseEx lc t A).tok B; let g := parseEx lc (freshTok t.maxDepth t.flags) B
+    f.err = g.err ∧ f.value = g.value ∧ f.offset = g.offset ∧ f.stuck = g.stuck ∧ f.fault = g.fault ∧
+      Eqv f.tok g.tok :=
+  parseEx_eqv lc _ _ (success_like_new lc t A hwf hhs h) B
+
+/-- ... and so do all later calls -/
+theorem next_calls_like_new (lc : Libc) (t : Tok) (A : Bytes) (calls : List Bytes) (hwf : WF t) (hhs : HsInv t)
+    (h : (parseEx lc t A).err = .success) :
+    runCalls lc (parseEx lc t A).tok calls = runCalls lc (freshTok t.maxDepth t.flags) calls :=
+  runCalls_eqv lc calls (success_like_new lc t A hwf hhs h)
+
+theorem parseExZ_tok (lc : Libc) (t : Tok) (str : Bytes) :
+    (parseExZ lc t str).tok = (parseEx lc t (cstr str ++ [0])).tok := by
+  unfold parseExZ
+  simp only
+  split <;> rfl
+
+theorem parseExZ_hsInv (lc : Libc) (t : Tok) (str : Bytes) (hwf : WF t) (hhs : HsInv t) :
+    HsInv (parseExZ lc t str).tok := by
+  rw [parseExZ_tok]; exact parseEx_hsInv lc t _ hwf hhs
 
 end JsonC.Tokener
